@@ -18,6 +18,9 @@ pub(crate) struct Chip {
     pub irq_polls: u8,
     pub done_seen: bool,       // the chip reported RxDone/TxDone
     pub listen_only: bool,     // harness flag: the operation under test is LoRa::listen (RSSI measurement: no packet engine needed)
+    /// VALUES last programmed (C17: what reaches the chip is what the caller requested): RF frequency, TX power,
+    /// modulation-parameter frequency, and the frequency / RX mode in force when a transmission / reception was started
+    pub freq: u32, pub power: i32, pub power_tx_prep: bool, pub power_freq: Option<u32>, pub started_freq: u32, pub started_rx: Option<RxMode>, pub payload_len: usize, pub pkt_len: u8,
 }
 impl Chip {
     fn cmd(&mut self) -> Result<(), RadioError> {
@@ -46,19 +49,19 @@ impl RadioKind for Chip {
     fn set_standby(&mut self) -> Result<(), RadioError> { self.cmd()?; self.standby = true; Ok(()) }
     fn set_sleep(&mut self, warm: bool, _d: &mut impl DelayNs) -> Result<(), RadioError> { self.cmd()?; self.asleep = true; self.standby = false; if !warm { self.lose_config(); } Ok(()) }
     fn set_tx_rx_buffer_base_address(&mut self, _t: usize, _r: usize) -> Result<(), RadioError> { self.cmd() }
-    fn set_tx_power_and_ramp_time(&mut self, _p: i32, _m: Option<&ModulationParams>, _t: bool) -> Result<(), RadioError> { self.cmd() }
+    fn set_tx_power_and_ramp_time(&mut self, p: i32, m: Option<&ModulationParams>, t: bool) -> Result<(), RadioError> { self.cmd()?; self.power = p; self.power_tx_prep = t; self.power_freq = m.map(|x| x.frequency_in_hz); Ok(()) }
     fn set_modulation_params(&mut self, _m: &ModulationParams) -> Result<(), RadioError> { self.cmd()?; self.modulation = true; Ok(()) }
-    fn set_packet_params(&mut self, _p: &PacketParams) -> Result<(), RadioError> { self.cmd()?; self.packet = true; Ok(()) }
+    fn set_packet_params(&mut self, p: &PacketParams) -> Result<(), RadioError> { self.cmd()?; self.packet = true; self.pkt_len = p.payload_length; Ok(()) }
     fn calibrate_image(&mut self, _f: u32) -> Result<(), RadioError> { self.cmd() }
-    fn set_channel(&mut self, _f: u32) -> Result<(), RadioError> { self.cmd()?; self.channel = true; Ok(()) }
-    fn set_payload(&mut self, _p: &[u8]) -> Result<(), RadioError> { self.cmd()?; self.payload = true; Ok(()) }
+    fn set_channel(&mut self, f: u32) -> Result<(), RadioError> { self.cmd()?; self.channel = true; self.freq = f; Ok(()) }
+    fn set_payload(&mut self, p: &[u8]) -> Result<(), RadioError> { self.cmd()?; self.payload = true; self.payload_len = p.len(); Ok(()) }
     fn do_tx(&mut self) -> Result<(), RadioError> {
         if !(self.inited && self.irq && self.modulation && self.packet && self.channel && self.payload) { self.started_unconfigured = true; }
-        self.cmd()?; self.standby = false; Ok(())
+        self.cmd()?; self.standby = false; self.started_freq = self.freq; Ok(())
     }
     fn do_rx(&mut self, _m: RxMode) -> Result<(), RadioError> {
         if !(self.inited && self.modulation && self.channel && (self.listen_only || (self.irq && self.packet))) { self.started_unconfigured = true; }
-        self.cmd()?; self.standby = false; Ok(())
+        self.cmd()?; self.standby = false; self.started_freq = self.freq; self.started_rx = Some(_m); Ok(())
     }
     fn get_rx_payload(&mut self, _p: &PacketParams, buf: &mut [u8]) -> Result<u8, RadioError> {
         self.cmd()?;
@@ -105,7 +108,8 @@ fn consistent(l: &LoRa<Chip, MockDelay>) -> bool {
 }
 pub(crate) fn any_lora() -> LoRa<Chip, MockDelay> {
     let chip = Chip { asleep: tape::boolean(), inited: tape::boolean(), irq: tape::boolean(), modulation: tape::boolean(), packet: tape::boolean(), channel: tape::boolean(), payload: tape::boolean(),
-        standby: tape::boolean(), cmds: 0, cmds_while_asleep: 0, started_unconfigured: false, fault_at: if tape::boolean() { tape::below(24) as u32 } else { u32::MAX }, irq_polls: 0, done_seen: false, listen_only: false };
+        standby: tape::boolean(), cmds: 0, cmds_while_asleep: 0, started_unconfigured: false, fault_at: if tape::boolean() { tape::below(24) as u32 } else { u32::MAX }, irq_polls: 0, done_seen: false, listen_only: false,
+        freq: tape::u32(), power: tape::i32(), power_tx_prep: false, power_freq: None, started_freq: 0, started_rx: None, payload_len: 0, pkt_len: 0 };
     let l = LoRa { radio_kind: chip, delay: MockDelay, radio_mode: any_radio_mode(), sync_word: 0x3444, cold_start: tape::boolean(), calibrate_image: tape::boolean() };
     kani::assume(consistent(&l));
     // a chip that lost its configuration has lost all of it
@@ -209,6 +213,70 @@ fn c14_lora_cad() { api_step(10, false) }
 #[kani::proof]
 #[kani::unwind(20)]
 fn c14_lora_set_lora_sync_word() { api_step(11, false) }
+
+// C17 (and C09/C10 hand-off): the VALUES that reach the chip are the ones the caller requested -- frequency, power, payload
+// length, receive mode -- from any consistent driver/chip state, whatever was programmed before
+// @verif props=C17,C09 obligation=LoRa::prepare_for_tx+tx.values_passed label=bounded(3-polls) tier=quick bound="any consistent (driver, abstract chip) state, any frequency / power, payload 0..3 bytes, one fault at any command position, at most 2 inconclusive IRQ polls"
+#[kani::proof]
+#[kani::unwind(20)]
+fn c17_lora_tx_values() {
+    tape::init();
+    let mut l = any_lora();
+    let m = mp();
+    let mut p = pp();
+    let pw = tape::i32();
+    let len = tape::below(4);
+    let data = [1u8, 2, 3];
+    let r = l.prepare_for_tx(&m, &mut p, pw, &data[..len]);
+    if r.is_ok() {
+        {
+            let c = &l.radio_kind;
+            assert!(c.freq == m.frequency_in_hz, "C17 the RF frequency programmed for a transmission is the requested one");
+            assert!(c.power == pw && c.power_tx_prep && c.power_freq == Some(m.frequency_in_hz), "C17 the TX power handed to the chip driver is the requested one (with the channel frequency for the PA validity check)");
+            assert!(c.payload_len == len && c.pkt_len as usize == len && p.payload_length as usize == len, "the packet length programmed equals the payload written to the FIFO");
+        }
+        let r2 = l.tx();
+        if r2.is_ok() { assert!(l.radio_kind.started_freq == m.frequency_in_hz, "C17 the transmission starts on the requested frequency"); }
+        kani::cover!(r2.is_ok(), "verif-reached: transmitted");
+    }
+    kani::cover!(r.is_ok(), "verif-reached: prepared");
+}
+// @verif props=C17,C10 obligation=LoRa::prepare_for_rx+start_rx+rx_switch_channel.values_passed label=proved-complete tier=quick bound="any consistent (driver, abstract chip) state, any frequency, every RX mode (any symbol count), one fault at any command position"
+#[kani::proof]
+#[kani::unwind(20)]
+fn c17_lora_rx_values() {
+    tape::init();
+    let mut l = any_lora();
+    let m = mp();
+    let p = pp();
+    let mode = any_rx_mode();
+    let r = l.prepare_for_rx(mode, &m, &p);
+    if r.is_ok() {
+        assert!(l.radio_kind.freq == m.frequency_in_hz && l.radio_mode == RadioMode::Receive(mode), "C17 the RF frequency programmed for a reception is the requested one; the driver remembers the requested receive mode");
+        let r2 = l.start_rx();
+        if r2.is_ok() {
+            assert!(l.radio_kind.started_freq == m.frequency_in_hz && l.radio_kind.started_rx == Some(mode), "C17 the reception starts on the requested frequency, in the requested mode (symbol-count timeout included)");
+            let f2 = tape::u32();
+            let r3 = l.rx_switch_channel(f2);
+            if r3.is_ok() { assert!(l.radio_kind.started_freq == f2 && l.radio_kind.started_rx == Some(mode), "C17 after a channel switch the reception runs on the new frequency in the same mode"); }
+            kani::cover!(r3.is_ok(), "verif-reached: switched");
+        }
+        kani::cover!(r2.is_ok(), "verif-reached: started");
+    }
+    kani::cover!(r.is_ok(), "verif-reached: prepared");
+}
+// @verif props=C17 obligation=LoRa::listen.values_passed label=proved-complete tier=quick bound="any consistent (driver, abstract chip) state, any frequency, one fault at any command position"
+#[kani::proof]
+#[kani::unwind(20)]
+fn c17_lora_listen_values() {
+    tape::init();
+    let mut l = any_lora();
+    l.radio_kind.listen_only = true;
+    let f = tape::u32();
+    let r = l.listen(f, Bandwidth::_125KHz);
+    if r.is_ok() { assert!(l.radio_kind.started_freq == f && l.radio_kind.started_rx == Some(RxMode::Continuous), "C17 RSSI listening runs on the requested frequency, continuously"); }
+    kani::cover!(r.is_ok(), "verif-reached: listening");
+}
 
 // C18: the physical layer hands back exactly the length the chip driver reported, and only with a caller buffer that holds it
 // @verif props=C18,C14 obligation=LoRa::rx.returns_driver_length label=bounded(3-polls) tier=quick bound="caller buffer of 16 bytes, any reported length, at most 2 inconclusive IRQ polls"
